@@ -42,10 +42,14 @@ def run(tier):
     def witness(src):
         b = src.encode("utf-8", errors="surrogateescape") if isinstance(src, str) else src
         f = C.run_harness("delta-total", [("w", b)], ck.work + "/witness", timeout=120).get("w", ["missing"])
-        return classify(f)
-    def classify(f):
+        return classify(f, b)
+    def classify(f, b=b""):
         if f[0] in ("ok", "lexerr", "parseerr"): return None
-        return C.failure_key(f[0])
+        key = C.failure_key(f[0])
+        # exhausting the stack (or the time limit) is a listed finding only for inputs that are really deep or long
+        if key in ("impl-failure:stack-overflow", "impl-failure:timeout"):
+            key += ":deep-or-long-input" if len(b) >= 10000 else ":short-input"
+        return key
     ck.witness_runner = witness
     n = 4000 if tier == "quick" else 300000
     cases = []
@@ -101,11 +105,11 @@ def run(tier):
     for cid, b, kind in cases:
         f = impl.get(cid, ["missing"]); fr = implr.get(cid, ["missing"])
         kinds[kind] += 1
-        key = classify(f) or classify(fr)
+        key = classify(f, b) or classify(fr, b)
         if key is not None:
-            which = "debug" if classify(f) else "release"
+            which = "debug" if classify(f, b) else "release"
             stats[key] += 1
-            ck.violation(key, "second-generation front end ended abnormally (%s build): %s" % (which, (f if classify(f) else fr)[0][:200]),
+            ck.violation(key, "second-generation front end ended abnormally (%s build): %s" % (which, (f if classify(f, b) else fr)[0][:200]),
                          "input kind: %s\nbytes (python repr): %r" % (kind, b[:4000])); continue
         stats[f[0]] += 1
         if f != fr:
